@@ -107,6 +107,9 @@ class FCISolverPySCF(ElectronicStructureSolver):
             h1 = self.mean_field.mo_coeff.T @ self.mean_field.get_hcore() @ self.mean_field.mo_coeff
 
             twoint = self.mean_field._eri
+            if twoint is None:
+                # The mean-field object does not always keep the AO integrals (e.g. one-electron systems)
+                twoint = self.mean_field.mol.intor("int2e", aosym="s8")
 
             eri = self.ao2mo.restore(8, twoint, self.norb)
             eri = self.ao2mo.incore.full(eri, self.mean_field.mo_coeff)
